@@ -16,6 +16,8 @@ pub enum HttpBehaviour {
     AcceptClose,
     /// 200, Content-Length = full length, only the first half is sent, then close
     CloseMidBody(Vec<u8>),
+    /// 200, Content-Length = full length, only the first n bytes are sent, then close
+    CloseAfter(Vec<u8>, usize),
     Stall,
 }
 
@@ -159,6 +161,15 @@ pub async fn http_mock(b: HttpBehaviour) -> Mock {
                     let head = format!("HTTP/1.1 200 OK\r\nContent-Type: text/plain\r\nContent-Length: {}\r\nConnection: close\r\n\r\n", body.len());
                     let _ = s.write_all(head.as_bytes()).await;
                     let _ = s.write_all(&body[..body.len() / 2]).await;
+                    let _ = s.flush().await;
+                    drop(s);
+                }
+                HttpBehaviour::CloseAfter(body, n) => {
+                    let line = read_http_request(&mut s).await.unwrap_or_default();
+                    log2.lock().unwrap().requests.push(line);
+                    let head = format!("HTTP/1.1 200 OK\r\nContent-Type: text/plain\r\nContent-Length: {}\r\nConnection: close\r\n\r\n", body.len());
+                    let _ = s.write_all(head.as_bytes()).await;
+                    let _ = s.write_all(&body[..(*n).min(body.len())]).await;
                     let _ = s.flush().await;
                     drop(s);
                 }
